@@ -62,7 +62,7 @@ pub fn run(tier: Tier, seed: u64) -> i32 {
         let n = ni as usize;
         let mut rng = case_rng(seed, "C11.trunc", ni);
         ev.set_insert("truncate_widths", n);
-        for (vname, v) in values(n, &mut rng) {
+        for (vi, (vname, v)) in values(n, &mut rng).into_iter().enumerate() {
             let uv = U320::from_scalar(&v);
             let expected = uv.low_bits(n).to_scalar();
             let case = Case {
@@ -75,6 +75,7 @@ pub fn run(tier: Tier, seed: u64) -> i32 {
                 expected: vec![expected],
                 note: format!("value={vname}"),
             };
+            let case = if (vi + n) % 3 == 1 { super::gadget::in_context(case, &mut rng, false, &ev) } else { case };
             let Some(h) = lab.honest(&case) else { continue };
             let low_w = h.own.start;
             let high_w = h.own.start + 1 + rc_count(n);
@@ -115,7 +116,7 @@ pub fn run(tier: Tier, seed: u64) -> i32 {
         let n = ni as usize + 1;
         let mut rng = case_rng(seed, "C11.dec", ni);
         ev.set_insert("decomposition_widths", n);
-        for (vname, v) in values(n, &mut rng) {
+        for (vi, (vname, v)) in values(n, &mut rng).into_iter().enumerate() {
             let uv = U320::from_scalar(&v);
             let relation = n >= 255 || uv.lt(&U320::pow2(n));
             let expected: Vec<BlsScalar> = (0..n).map(|i| BlsScalar::from(uv.bit(i))).collect();
@@ -129,6 +130,7 @@ pub fn run(tier: Tier, seed: u64) -> i32 {
                 expected,
                 note: format!("value={vname}"),
             };
+            let case = if (vi + n) % 3 == 1 { super::gadget::in_context(case, &mut rng, false, &ev) } else { case };
             let Some(h) = lab.honest(&case) else { continue };
             let bit_w = |i: usize| h.own.start + 2 * i;
             // bit vectors of v + m r
@@ -176,5 +178,6 @@ pub fn run(tier: Tier, seed: u64) -> i32 {
     ev.floor("end-to-end", ev.bucket_get("end_to_end"), tier.pick(20, 400));
     ev.floor("near-miss assignments (one sub-identity on one row) refused by the real prover", ev.bucket_get("near_miss.end_to_end"), 40);
     ev.floor("sub-identities covered by near misses", ev.set_len("near_miss_identities") as u64, 4);
+    ev.floor("cases run in a context of earlier calls on the operands", ev.bucket_get("context.cases"), 500);
     ev.finish()
 }
